@@ -24,7 +24,8 @@ ASSUMPTIONS = [
     "matrix has >= 1 row and >= 1 column, rectangular, entries 0/1 ([] and zero-column matrices carry no column "
     "information; the code returns () by convention - excluded)",
     "column names are distinct hashable values; secondary names all occur among the column names",
-    "max_solutions >= 1 when given (0 means 'no limit' in the code); max_iter >= 0",
+    "max_solutions >= 1 when given; max_solutions=0 is run too and judged leniently (0 = no limit in the code, 'stop after "
+    "this many' in the text: either reading accepted, but OPTIMAL with find_all must come with the complete list); max_iter >= 0",
     "max_solutions: exactly min(k, #covers) covers are returned; FEASIBLE required when #covers > k, OPTIMAL when "
     "#covers < k, either accepted when #covers == k (the search cannot know)",
     "L2 anomalies (non-LIFO uncover, uncover not the inverse of cover) are events, not violations (DESIGN section 3)",
@@ -524,6 +525,17 @@ def _run_xc(case, obs, light=False):
         r, _ = _solve(cx, obs, f"find_all,max_solutions={k}", find_all=True, max_solutions=k)
         if not is_crash(r):
             _judge_maxsol(cx, obs, f"find_all,max_solutions={k}", r, k)
+    if case.get("k") and cx.truth is not None:
+        # max_solutions=0: the text ("stop after finding this many") and the code (0 = no limit) can be read either
+        # way, so both are accepted - what no reading allows is a cut-off list presented as the complete answer
+        r, _ = _solve(cx, obs, "find_all,max_solutions=0", find_all=True, max_solutions=0)
+        if not is_crash(r) and r.status in (_St.OPTIMAL, _St.FEASIBLE):
+            got = _list_ok(cx, obs, "find_all,max_solutions=0", r.solution)
+            obs.event("xc.maxsol-zero.checked")
+            if got is not None and r.status == _St.OPTIMAL and len(got) != T:
+                obs.violate("dlx.maxsol.status", f"[find_all,max_solutions=0] OPTIMAL with {len(got)} of {T} covers listed")
+        elif not is_crash(r) and r.status == _St.INFEASIBLE and T:
+            obs.violate("dlx.wrong-infeasible", f"[find_all,max_solutions=0] INFEASIBLE but {T} cover(s) exist")
     for fa, mode, v in case.get("L", []):
         ref = all1 if fa else first
         ref = None if is_crash(ref) else ref
